@@ -4006,3 +4006,35 @@ def r09_15(ctx):
                 quoted = True
     ctx.need(quoted, "a view of the quoted IPv4 header in icmpv4::Repr::parse")
     ctx.ok(('icmpv4::parse', 'header-only quote'), sample=dict(fn='icmpv4::Repr::parse', validates='the quoted IP header only'))
+
+
+@rule('R02.18', ['C02', 'C13'], floor=1, clause='a zero-window probe sent while earlier segments are unacknowledged starts at SND.UNA: tcp dispatch takes the probe\'s octet at offset 0 when data is in flight (behind a test of flight_size(), next to the ordinary slice at flight_size()), so the unacknowledged data is offered again instead of an empty segment at SND.NXT')
+def r02_18(ctx):
+    F = ctx.F
+    b = ctx.method(SOCK, 'dispatch')
+    inflight = lambda f: f[0] == 'rel' and ((f[1] in ('Gt', 'Ne') and is_call(strip(f[2]), '::flight_size') and const_of(strip(f[3])) == 0) or
+                                            (f[1] == 'Lt' and is_call(strip(f[3]), '::flight_size') and const_of(strip(f[2])) == 0) or
+                                            (f[1] in ('Ne', 'Gt', 'Lt') and {'remote_last_seq', 'local_seq_no'} <= {l.rsplit('.', 1)[-1] for l in leafs(f[2]) | leafs(f[3])}))
+    g = set(guard_edges(F, b, inflight))
+    normal, from_una = [], []
+    for x in b.calls():
+        cn = b.callee_name(x[1]) or ''
+        if not cn.endswith('::get_allocated'):
+            continue
+        at = len(b.blocks[x[0]]['s'])
+        rcv = strip(simplify(F.origin.operand(b, x[2][0], x[0], at)))
+        if not any(l.endswith('.tx_buffer') for l in leafs(rcv)):
+            continue
+        off = strip(simplify(F.origin.operand(b, x[2][1], x[0], at)))
+        al = alts(off) if off[0] == 'phi' else [off]
+        if any(c[1].endswith('::flight_size') for c in _calls_in(off)):
+            normal.append((x[0], any(const_of(a) == 0 for a in al)))
+        elif const_of(off) == 0 and g and x[0] not in b.reachable(cut_edges=g):
+            from_una.append(x[0])
+    ctx.need(normal, "the payload slice of ordinary / probe segments in tcp dispatch (get_allocated at flight_size())")
+    if from_una or any(z for _, z in normal):
+        ctx.ok(('dispatch', 'probe offset'), sample=dict(offset='0 with data in flight (probe), flight_size() otherwise'))
+    else:
+        ctx.bad("tcp::dispatch|probe-behind-unacknowledged-data", "tcp dispatch takes the octet of a zero-window probe at offset flight_size() even when earlier segments are unacknowledged: with everything "
+                "queued already in flight the probe is an empty segment at SND.NXT, which gets no reply once the window has reopened - a lost segment plus a lost window update stall the "
+                "connection for ever", body=b, bb=normal[0][0])
